@@ -15,7 +15,8 @@ Proof. exact accept_iff_rules. Qed.
 Theorem C03_oracle_is_rule_list : forall tip b p v x, valid_block_b tip b p v x = true <-> valid_block tip b p v x.
 Proof. exact valid_block_b_ok. Qed.
 
-(* A block that is not accepted leaves chain, consensus store, finalized height and published events exactly as they were. *)
+(* A block that is not accepted leaves chain, consensus store, finalized height, published events and the state root last
+   committed to the application exactly as they were. *)
 Theorem C03_reject_no_change : forall s b p v x, fst (receive s b p v x) <> Accepted -> snd (receive s b p v x) = s.
 Proof. exact reject_no_change. Qed.
 
@@ -34,7 +35,8 @@ Theorem C03_accepted_is_append : forall s b p v x, fst (receive s b p v x) = Acc
                  ++ (if n_finalized s <? xe_post_precommit x
                      then [PFinalize (n_finalized s) (xe_post_precommit x) (h_id (b_header b))] else [])
                  ++ [PNew (h_id (b_header b)) (xe_nevents x)]
-                 ++ (if xe_params_changed x then [PValidators] else []).
+                 ++ (if xe_params_changed x then [PValidators] else []) /\
+  n_app s' = h_stateroot (b_header b).
 Proof. exact accepted_is_append. Qed.
 
 (* Fork-choice entry point.  Full statement wanted:
@@ -65,18 +67,30 @@ Definition ex_tip : block := mkBlk (ex_hdr 5 1050 4 5 8 2) [] [].
 Definition ex_new : block := mkBlk (ex_hdr 5 1060 4 6 9 3) [] [].
 Definition ex_succ : block := mkBlk (ex_hdr 6 1060 5 6 9 3) [mkTx (id 50) 120 true] [mkAs 1 (mkB 4 60); mkAs 2 (mkB 8 61)].
 Definition ex_pe : payload_env := mkPE (id 100) (id 101).
-Definition ex_ve (sig_ok : bool) : venv := mkVE 1000 10 1065 15360 true [ad 9; ad 7; ad 8] 0 false true sig_ok.
+Definition ex_ve (sig_ok : bool) : venv := mkVE 1000 10 1065 15360 true [ad 9; ad 7; ad 8] 0 false 3 0 None true true sig_ok.
 Definition ex_xe (cs : N) : xenv := mkXE true true true true [(true, true)] true false true (id 104) 2 (id 102) 3 true cs.
-Definition ex_node : node := mkNode [ex_parent; ex_tip] 77 1 [].
+Definition ex_node : node := mkNode [ex_parent; ex_tip] 77 1 [] (id 103).
 
 (* non-vacuity: a block satisfying every rule exists and is accepted, with a finality raise *)
 Example C03_example_accept :
   receive ex_node ex_succ ex_pe (ex_ve true) (ex_xe 78)
-  = (Accepted, mkNode [ex_parent; ex_tip; ex_succ] 78 3 [PFinalize 1 3 (id 6); PNew (id 6) 2]).
+  = (Accepted, mkNode [ex_parent; ex_tip; ex_succ] 78 3 [PFinalize 1 3 (id 6); PNew (id 6) 2] (id 103)).
 Proof. vm_compute. reflexivity. Qed.
 
 Example C03_example_reject_signature :
   receive ex_node ex_succ ex_pe (ex_ve false) (ex_xe 78) = (Rejected RSignature, ex_node).
+Proof. vm_compute. reflexivity. Qed.
+
+(* the aggregate-commit rule is the declarative one, and its bounds are tight: with last certified height 0, precommitted
+   height 7 and a change of BFT parameters at height 5, genuine commits for heights 1..4 pass, 0, 5 and 8 do not *)
+Theorem C03_aggregate_commit_rule : forall h v, agg_commit_ok h v = true <-> valid_aggregate_commit h v.
+Proof. exact agg_commit_ok_ok. Qed.
+
+Definition ex_agg_hdr (aggh : N) : header :=
+  mkH 2 1060 6 (id 5) (ad 9) (id 100) (id 101) (id 102) (id 103) 0 0 false (id 104) aggh (mkB 1 7) (mkB 96 8) (mkB 64 3) (id 6).
+Definition ex_agg_ve : venv := mkVE 1000 10 1065 15360 true [ad 9; ad 7; ad 8] 0 false 7 0 (Some 5) true true true.
+Example C03_example_aggregate_bounds :
+  map (fun a => agg_commit_ok (ex_agg_hdr a) ex_agg_ve) [0; 1; 4; 5; 7; 8] = [false; true; true; false; false; false].
 Proof. vm_compute. reflexivity. Qed.
 
 (* the full "rejected blocks change nothing" statement is false of process: tie-break with an invalid competing block *)
@@ -86,6 +100,6 @@ Theorem C03_process_reject_no_change_refuted : exists s b k p v x t,
   n_emitted (snd (process s b k p v x t)) <> n_emitted s.
 Proof.
   exists ex_node, ex_new, TieBreak, ex_pe, (ex_ve false), (ex_xe 79),
-         (mkTE (mkDE true true 76) (mkVE 1000 10 1065 15360 true [ad 9; ad 7; ad 8] 0 false true true) (ex_xe 77)).
+         (mkTE (mkDE true true 76) (mkVE 1000 10 1065 15360 true [ad 9; ad 7; ad 8] 0 false 3 0 None true true true) (ex_xe 77)).
   vm_compute. repeat split; discriminate.
 Qed.
